@@ -192,10 +192,13 @@ def execute(ctx):
             else:
                 fails, delays, args = set(op[1]), op[2], op[3]
                 args_dict = None
+                # the argument dictionary is the caller's: its key order is unrelated to the order of the URIs
+                keys = list(uris)
+                ctx.work.shuffle(keys)
                 if args == 'one':
-                    args_dict = {u: ['arg-%s-%d' % (u, oi)] for u in uris}
+                    args_dict = {u: ['arg-%s-%d' % (u, oi)] for u in keys}
                 elif args == 'two':
-                    args_dict = {u: [oi, {'uri': u}] for u in uris}
+                    args_dict = {u: [oi, {'uri': u}] for u in keys}
 
                 def action(scf, *a, oi=oi, fails=fails, delays=delays):
                     uri = [u for u, m in members.items() if m is scf]
